@@ -854,6 +854,8 @@ pub fn run_c08(o: &Opts) -> Report {
     }
     // the order in which the formats are used on a thread must not matter
     thread_order_stream(&mut cx, &mut rng, false, false);
+    // the lexical half of "depends only on format and input": state kept across calls (see lexprops::lex_state_search)
+    crate::lexprops::c08_lexical_state(o, cx.rep);
     let cases = std::mem::take(&mut cx.cases);
     finish(o, "C08", rep, cases)
 }
@@ -2026,6 +2028,8 @@ pub fn run_c15(o: &Opts) -> Report {
             }
         }
     }
+    // empty truth / budget brackets written out, every position and format, both parsers (see lexprops::empty_bracket_texts)
+    crate::lexprops::c15_empty_brackets(cx.rep, &mut cx.lcases, &mut cx.ldescr);
     let cases = std::mem::take(&mut cx.cases);
     let lcases = std::mem::take(&mut cx.lcases);
     let ldescr = std::mem::take(&mut cx.ldescr);
